@@ -1,9 +1,11 @@
 package props
 
 import (
+	"go/ast"
 	"go/constant"
 	"go/token"
 	"go/types"
+	"sort"
 	"strings"
 
 	"golang.org/x/tools/go/ssa"
@@ -158,7 +160,7 @@ func c23O1(m *c22Model) {
 				if pp := c23PinOfID(a[len(a)-1]); pp == nil || !an.SameObj(pp, pin) {
 					continue
 				}
-				if k := c22IndexKind(d); k == "R" || k == "D" {
+				if c23IsCidIndex(d) {
 					cidDel = append(cidDel, d)
 				}
 				if an.Reaches(fn, del, d, nil, nil) {
@@ -214,19 +216,70 @@ func c23O1(m *c22Model) {
 					continue
 				}
 				nRepl++
-				label := c22CallLabel(rm)
+				label := "remover"
 				if mv := c22ModeArg(rm); mv != nil {
 					label += "(" + m.modeName(mv) + ")"
 				}
-				c.Check(!an.Reaches(fn, rm, add, nil, nil), "O1", "R-DOM", name, label+"-before-"+c22CallLabel(add), rm.Pos(),
+				alabel := "adder"
+				if mv := c22ModeArg(add); mv != nil {
+					alabel += "(" + m.modeName(mv) + ")"
+				}
+				// keyed by the exported operations through which the sequence is
+				// reached, not by the (unexported, renameable, splittable) function
+				// that happens to contain it
+				opName := c22Pkg + "." + c23EntryPoints(m, fn)
+				c.Check(!an.Reaches(fn, rm, add, nil, nil), "O1", "R-DOM", opName, label+"-before-"+alabel, rm.Pos(),
 					"the replacement pin is stored before the old pins of the CID are removed",
-					"the existing pins of the CID are removed ("+label+") before the replacement is stored ("+c22CallLabel(add)+"): if the process stops after the old record is deleted and before the new one is written, a CID that was pinned and that the operation does not unpin is no longer pinned after reopening")
+					"in "+name+" the existing pins of the CID are removed ("+c22CallName(rm)+", "+label+") before the replacement is stored ("+c22CallName(add)+", "+alabel+"): if the process stops after the old record is deleted and before the new one is written, a CID that was pinned and that the operation does not unpin is no longer pinned after reopening")
 			}
 		}
 	}
 	c.Min("O1 index Add sites", nAdd, 3)
 	c.Min("O1 record Delete sites", nDel, 1)
 	c.Min("O1 remove/add pairs on one CID", nRepl, 1)
+}
+
+// c23EntryPoints names the exported methods of the pinner through which fn is
+// reached by static calls inside the package ("Pin+PinWithMode"); fn's own
+// name when it is exported, "internal" when no exported method reaches it.
+func c23EntryPoints(m *c22Model, fn *ssa.Function) string {
+	isEntry := func(f *ssa.Function) bool {
+		return f.Parent() == nil && ast.IsExported(f.Name())
+	}
+	seen := map[*ssa.Function]bool{}
+	found := map[string]bool{}
+	var up func(f *ssa.Function)
+	up = func(f *ssa.Function) {
+		if seen[f] {
+			return
+		}
+		seen[f] = true
+		if isEntry(f) {
+			found[f.Name()] = true
+			return
+		}
+		for _, g := range m.fns {
+			for _, call := range an.AllCalls(g) {
+				if an.Callee(call).Static == f {
+					top := g
+					for top.Parent() != nil {
+						top = top.Parent()
+					}
+					up(top)
+				}
+			}
+		}
+	}
+	up(fn)
+	if len(found) == 0 {
+		return "internal"
+	}
+	var ns []string
+	for n := range found {
+		ns = append(ns, n)
+	}
+	sort.Strings(ns)
+	return strings.Join(ns, "+")
 }
 
 // c23Cover is the interprocedural dirty-flag cover analysis. Events of a
@@ -396,7 +449,7 @@ func c23Unindexes(h *ssa.Function, pin *ssa.Parameter, depth int) (must, may boo
 			a := an.Args(d)
 			if pp := c23PinOfID(a[len(a)-1]); pp != nil && an.SameObj(pp, pin) {
 				may = true
-				if kk := c22IndexKind(d); kk == "R" || kk == "D" {
+				if c23IsCidIndex(d) {
 					dels = append(dels, d)
 				}
 			}
@@ -872,17 +925,17 @@ func c23PathConsts(m *c22Model) []string {
 			}
 		}
 	}
-	// package init functions are not part of PkgFuncs when synthetic; look there too
-	if pk := m.p.Pkg(c22Pkg); pk != nil {
-		sc := pk.Types.Scope()
-		for _, n := range []string{"pinKeyPath", "indexKeyPath"} {
-			if k, ok := sc.Lookup(n).(interface{ Val() constant.Value }); ok && k.Val().Kind() == constant.String && !seen[constant.StringVal(k.Val())] {
-				seen[constant.StringVal(k.Val())] = true
-				out = append(out, constant.StringVal(k.Val()))
-			}
-		}
-	}
 	return out
+}
+
+// c23IsCidIndex: the call is made on the recursive or the direct index - the
+// field itself or a local selected from those two fields.
+func c23IsCidIndex(call ssa.CallInstruction) bool {
+	ks := c23IdxKinds(call)
+	if len(ks) == 0 || ks["?"] || ks["N"] {
+		return false
+	}
+	return true
 }
 
 // c23IdxKinds: the index kinds ("R","D","N") a call's receiver can denote
